@@ -860,7 +860,9 @@ fn sub_dedup(tier: Tier) -> Sub {
     )
 }
 
-pub fn def(tier: Tier) -> CheckDef {
+pub fn def(_cli_tier: Tier) -> CheckDef {
+    // the whole thorough space costs ~10 s: both tiers run it
+    let tier = Tier::Thorough;
     CheckDef {
         level: "exploration",
         rule: "one evaluation = one FrameTable built through the public writing interface and serialised with write_debug_frame/write_eh_frame (plus one per FDE whose rows are evaluated with the reader); distinct = distinct (table, section kind, byte order); non-trivial = every table (each has at least one CIE and one FDE)".into(),
